@@ -155,10 +155,10 @@ def pf_contract_storage(D, T=3, freq='h', unit='h', eff=0.75, wacc=False, win_s=
     return Shape(pf, tg, prices_for(D, ['p'], T))
 
 
-def pf_two_node(D, T=3, freq='h', unit='h', eff_s=0.75, eff_t=0.5, wacc=False, win_t=None, two_node_storage=False, storage_kw=None):
+def pf_two_node(D, T=3, freq='h', unit='h', eff_s=0.75, eff_t=0.5, wacc=False, win_t=None, two_node_storage=False, storage_kw=None, node_names=('A', 'B')):
     eao = lift.import_eao()
     tg = grid(T, freq, unit)
-    nA, nB = nodes('A', 'B')
+    nA, nB = nodes(*node_names)      # (first appearance in the asset list: node_names[0] first)
     w = D('wacc', lo=0) if wacc else 0
     m1 = mk_market(D, 'mA', nA, T, 'p', ec=True, wacc=w)
     m2 = mk_market(D, 'mB', nB, T, 'q', wacc=w)
@@ -585,7 +585,38 @@ def pf_plant_mincap_col(D, T=3):
     return Shape(pf, tg, pr)
 
 
-PORTFOLIOS = dict(plant_mincap_col=pf_plant_mincap_col, linked=pf_linked, early_node=pf_early_node, names=pf_names, caps_dict=pf_caps_dict, mixed_wacc=pf_mixed_wacc, alternating=pf_alternating, uncoupled=pf_uncoupled, caps_ts=pf_caps_ts, windows=pf_windows, contract_storage=pf_contract_storage, two_node=pf_two_node, multicommodity=pf_multicommodity,
+def pf_plant_minload(D, T=3, fuel=True, ramps=True, heat=False, win=None):
+    """CHPAsset_with_min_load_costs (extra costs while running below a threshold): with a fuel node and start / shutdown ramp profiles"""
+    eao = lift.import_eao()
+    tg = grid(T)
+    names = ['P'] + (['H'] if heat else []) + (['G'] if fuel else [])
+    nds = nodes(*names)
+    mn = D('pl_min', lo_strict=0); mx = D('pl_max', lo=0)
+    D.assume(mn <= mx)
+    kw = dict(name='pl', nodes=nds, price='p', min_cap=mn, max_cap=mx, start_costs=D('pl_sc', lo=0), running_costs=D('pl_rc', lo=0),
+              min_load_threshhold=D('pl_thr', lo=0), min_load_costs=D('pl_mlc', lo=0), _no_heat=not heat)
+    if fuel:
+        kw.update(start_fuel=D('pl_sf', lo=0), fuel_efficiency=D.coef('pl_fe', 0.5, lo_strict=0), consumption_if_on=D('pl_cio', lo=0))
+    if ramps:
+        kw.update(start_ramp_lower_bounds=[1.0], start_ramp_upper_bounds=[1.5], shutdown_ramp_lower_bounds=[1.0], shutdown_ramp_upper_bounds=[2.0])
+        if D.symbolic:
+            D.assume(mx >= 2.0)
+    if heat:
+        kw.update(conversion_factor_power_heat=D.coef('pl_cf', 0.25, lo_strict=0), max_share_heat=D.coef('pl_msh', 2.0, lo=0))
+    if win is not None:
+        kw['start'], kw['end'] = window(tg, win)
+    pl = eao.assets.CHPAsset_with_min_load_costs(**kw)
+    assets = [pl, mk_market(D, 'mP', nds[0], T, 'p')]
+    pr = ['p']
+    k = 1
+    if heat:
+        assets.append(mk_market(D, 'mH', nds[k], T, 'h')); pr.append('h'); k += 1
+    if fuel:
+        assets.append(mk_market(D, 'mG', nds[k], T, 'g')); pr.append('g')
+    return Shape(eao.portfolio.Portfolio(assets), tg, prices_for(D, pr, T))
+
+
+PORTFOLIOS = dict(plant_minload=pf_plant_minload, plant_mincap_col=pf_plant_mincap_col, linked=pf_linked, early_node=pf_early_node, names=pf_names, caps_dict=pf_caps_dict, mixed_wacc=pf_mixed_wacc, alternating=pf_alternating, uncoupled=pf_uncoupled, caps_ts=pf_caps_ts, windows=pf_windows, contract_storage=pf_contract_storage, two_node=pf_two_node, multicommodity=pf_multicommodity,
                   contract_take=pf_contract_take, plant=pf_plant, coarse=pf_coarse, periodic=pf_periodic,
                   orderbook=pf_orderbook, scaled=pf_scaled, structured=pf_structured, ext_transport=pf_ext_transport)
 
